@@ -344,4 +344,14 @@ def r8_header_policy_cannot_panic(ctx):
                   (sites[0][0], sites[0][3]) if sites else f)
 
 
-RULES = [("C05.R8", r8_header_policy_cannot_panic), ("C05.E1", e1_matches), ("C05.E2", e2_overlaps), ("C05.E3", e3_from_until), ("C05.E4", e4_header_ceiling), ("C05.R5", r5_routed_at_that_version)]
+def r9_every_existing_range_is_tested_against_the_new_one(ctx):
+    """`conflicting if and only if some version belongs to both, whichever is registered first`: the registration loop tests the NEW range
+    against EVERY range already stored for that path and method.  This is C02.R4, re-evaluated here (adversary change C05-K: the list was
+    split with split_first() after the push, so the first-registered range was compared with the others and an overlap between the second
+    and third went unnoticed)."""
+    from . import c02
+    from .lib_c01 import Renamed
+    c02.r4_version_conflicts(Renamed(ctx, "C05.R9", "insert refuses exactly when overlaps_with(existing, new) holds for some stored range of that path and method, each stored range being tested against the new one"))
+
+
+RULES = [("C05.R9", r9_every_existing_range_is_tested_against_the_new_one), ("C05.R8", r8_header_policy_cannot_panic), ("C05.E1", e1_matches), ("C05.E2", e2_overlaps), ("C05.E3", e3_from_until), ("C05.E4", e4_header_ceiling), ("C05.R5", r5_routed_at_that_version)]
